@@ -25,6 +25,11 @@ def _dom(M, nd, kind):
         for k in range(nd - 1):
             M.assume(d[k + 1] > d[k])
         return d, d
+    if kind.startswith("int"):
+        # concretely typed integer steps (python int / numpy integer): dtype effects are invisible to a real-valued symbol
+        v = int(kind.split(":")[1])
+        dxc = np.int64(v) if kind.startswith("intnp") else v
+        return dxc, np.array([v * k for k in range(nd)], dtype=object if M.symbolic else float)
     dx = M.real("dx", (), sample=lambda rng, shp: rng.uniform(0.25, 3.0))
     M.assume(dx > 0)
     return dx, np.array([dx * k for k in range(nd)], dtype=object if M.symbolic else float)
@@ -76,7 +81,7 @@ def capture_case(M, fshape, sshape, nd, dom, trapz):
     goals["shape"] = (out.shape == tuple(exp_shape))
     if out.shape == tuple(exp_shape):
         goals["entry(i,j)=integral(signal_i*filter_j)"] = M.eq(out, spec if M.symbolic else spec.astype(float))
-    if dom == "scalar" and trapz:
+    if dom != "array" and trapz:
         # scalar dx  ==  explicit domain 0, dx, 2dx, ...
         out2 = calculate_capture(F, Sg, domain=np.asarray(grid), trapz=True)
         goals["scalar-dx==explicit-domain"] = M.eq(out, out2)
@@ -152,6 +157,11 @@ def cases(tier, seed):
             continue
         for dom, trapz in (("array", True), ("scalar", True), ("scalar", False)):
             add(f"2Dx2D F{nf} S{ns} D{nd} {dom} trapz={trapz}", "capture_case", fshape=(nf,), sshape=(ns,), nd=nd, dom=dom, trapz=trapz)
+    for dom in ("int:1", "int:3", "int:2", "intnp:1", "intnp:5"):
+        for trapz in (True, False):
+            add(f"2Dx2D F2 S2 D3 {dom} trapz={trapz}", "capture_case", fshape=(2,), sshape=(2,), nd=3, dom=dom, trapz=trapz)
+        add(f"1Dx1D D4 {dom}", "capture_case", fshape=(), sshape=(), nd=4, dom=dom, trapz=True)
+        add(f"integral shape=(2, 3) axis=1 {dom}", "integral_case", shape=(2, 3), axis=1, dom=dom, keepdims=False)
     # lower ranks
     for dom, trapz in (("array", True), ("scalar", True), ("scalar", False)):
         add(f"1Dx1D D3 {dom} trapz={trapz}", "capture_case", fshape=(), sshape=(), nd=3, dom=dom, trapz=trapz)
